@@ -14,6 +14,10 @@ class PathAbort(BaseException):
     """infeasible path / assumption failed (BaseException: must not be caught by code under test)"""
 
 
+class ShardSkip(PathAbort):
+    """this subtree belongs to another worker of a sharded exploration"""
+
+
 class BoundHit(BaseException):
     """a stated exploration bound (loop unrolling, path budget) was hit on this path"""
 
@@ -99,7 +103,8 @@ class Stats:
 
 class Explorer:
     def __init__(self, max_paths=200000, query_timeout_ms=30000, max_decisions=4000, want_witness=False,
-                 deadline=None):
+                 deadline=None, shard=None):
+        self.shard = shard            # (index, count, depth): explore only subtrees whose first `depth` decisions hash to index
         self.max_paths = max_paths
         self.query_timeout_ms = query_timeout_ms
         self.max_decisions = max_decisions
@@ -135,6 +140,14 @@ class Explorer:
         self.solver.add(c)
         self.model = None
 
+    def _shard_check(self):
+        """called after a decision has been appended to the trace"""
+        sh = self.shard
+        if sh is not None and len(self.trace) == sh[2]:
+            import zlib
+            if zlib.crc32(repr(self.trace).encode()) % sh[1] != sh[0]:
+                raise ShardSkip()
+
     # ------------------------------------------------------------- decisions
     def branch(self, cond):
         """cond: z3 BoolRef -> python bool, forking when both sides are feasible."""
@@ -149,6 +162,7 @@ class Explorer:
             self.solver.add(cond if d else z3.Not(cond))
             self.trace.append(d)
             self.model = None
+            self._shard_check()
             return d
         if i >= self.max_decisions:
             raise BoundHit("max_decisions")
@@ -163,6 +177,7 @@ class Explorer:
         d = mv
         self.solver.add(cond if d else z3.Not(cond))
         self.trace.append(d)
+        self._shard_check()
         return d
 
     def choose(self, e, what=""):
@@ -179,6 +194,7 @@ class Explorer:
                 self.solver.add(e == d[1])
                 self.model = None
                 self.trace.append(d)
+                self._shard_check()
                 return d[1]
             excluded = list(d[1])
             for v in excluded:
@@ -197,6 +213,7 @@ class Explorer:
             self.todo.append(self.trace + [("not", excluded + [v])])
         self.trace.append(("val", v))
         self.solver.add(e == v)
+        self._shard_check()
         return v
 
     def assume(self, cond):
@@ -318,6 +335,10 @@ class Explorer:
                     out = harness(self, *args, **kw)
                     # feasible end state?
                     m = self._model()
+                    if self.shard is not None and len(self.trace) < self.shard[2]:
+                        import zlib
+                        if zlib.crc32(repr(self.trace).encode()) % self.shard[1] != self.shard[0]:
+                            raise ShardSkip()     # short path: counted by exactly one worker
                     self.stats.ok += 1
                     if self.want_witness and out is not None:
                         from .values import concretize_struct
@@ -325,6 +346,8 @@ class Explorer:
                                                "outputs": concretize_struct(out, m)})
                     if len(self.samples) < 3:
                         self.samples.append(self.eval_inputs(m))
+                except ShardSkip:
+                    self.stats.paths -= 1
                 except PathAbort:
                     self.stats.pruned += 1
                 except BoundHit as e:
